@@ -8,6 +8,13 @@ def hook_commits():
     return [l.split()[0] for l in out.splitlines() if "verif hook" in l]
 
 CLAIMED = {
+ "C10": dict(
+   level="fault_enumeration",
+   text="Catalogue of 26 valid encodings produced by a real history (every message tag, blocks, transaction, slip, hop, golden-ticket payload, wallet file, block file, fetched buffer); for each: ALL truncation lengths, every 4-byte window of the first 400 / last 20 bytes set to 11 boundary values and true value +-1, seeded bit flips and random strings. Every variant goes to the decoder directly (no panic; peak allocation <= 16*len + 1 MiB measured by a counting allocator) and through the real entry point of a live node (IncomingNetworkMessage from an authenticated peer followed to quiescence, BlockFetched buffer, file present at restart).",
+   design="§6 C10",
+   note="Trusted: counting allocator; catalogue construction. Truncations and u32 windows are enumerated completely for the catalogue in both tiers; bit flips / random strings are sampled (more chunks in thorough).",
+   technique="deterministic simulation with enumerated byte-corruption faults at the wire and disk seams (direct decoders + real handlers)"),
+
  "C16": dict(
    level="exploration",
    text="One real node (routing/verification/consensus) with 2-3 scripted peers authenticated through the real handshake; 5..60/200 seeded operations (announce by any peer in any height order incl. the same block by several peers and unknown hashes, timer rounds, fetch completions with the right / undecodable / wrong block, fetch failures, disconnects), everything driven through the routing layer. Oracle at the I/O boundary after every operation: in-flight per peer <= batch size, no (peer, hash) in flight twice, no never-requested lower height skipped, every announced real block requested or present after faults stop, at most 501 requests per peer for a block that always fails.",
